@@ -1737,6 +1737,15 @@ func FuncArgReader(query *Query, current Map, selectExprs []sqlparser.Expr, opts
 		if err != nil {
 			return nil, err
 		}
+		// the markers of the select list mean nothing to a function: as an
+		// argument a fused object is the object and a call that yields no
+		// column yields no value
+		switch marker := value.(type) {
+		case Fuse:
+			value = map[string]any(marker)
+		case Ommit:
+			value = nil
+		}
 		slice = append(slice, value)
 	}
 	return slice, nil
